@@ -102,6 +102,8 @@ class V:
         if self.witness_fn is not None and "witness" not in info:
             info["witness"] = self.witness_fn
         info.setdefault("case", list(self.case))
+        if self.unit.owner is not self.unit.prop:
+            info.setdefault("replay_script", self.unit.owner.id)      # shared unit: its witnesses are replayed by the owner's harness
         info.setdefault("branches", list(self.st.branch_log))
         self.st.check(f"{self.unit.qual}/{label}", goal, **info)
 
@@ -120,6 +122,7 @@ class Unit:
         self.kind = kind
         self.covers = {}
         self.setup = None
+        self.owner = prop       # the property whose setup functions this unit needs (differs from prop for shared units)
 
 
 class Property:
@@ -140,6 +143,15 @@ class Property:
             self.units.append(Unit(self, qual, fn, name, functions))
             return fn
         return deco
+
+    def include(self, other, select, why=""):
+        """share units of another property: this property's claim relies on those contracts (modular use), so a change that breaks
+        them must fail THIS check too.  `select`: substrings of unit names."""
+        for u in other.units:
+            if any(sub in u.name for sub in select):
+                nu = Unit(self, u.qual, u.body, f"{u.name} [contract shared with {other.id}{': ' + why if why else ''}]", list(u.functions), u.kind)
+                nu.owner = other
+                self.units.append(nu)
 
     def lemma(self, name, functions=()):
         """a lemma over contracts / spec functions: body(L) returns list of (label, pc-list, goal)"""
@@ -167,8 +179,8 @@ class Property:
         return deco
 
 
-def new_interp(prop):
+def new_interp(prop, unit=None):
     I = Interp(Repo(REPO))
-    for fn in prop.setup_fns:
+    for fn in (unit.owner if unit is not None else prop).setup_fns:
         fn(I)
     return I
